@@ -64,6 +64,7 @@ def smt2_for(pc, neg_goal):
 
 _REWRITES = [
     (re.compile(r"\bseq\.nth_i\b"), "seq.nth"),
+    (re.compile(r"\bseq\.nth_u\b"), "seq.nth"),
     (re.compile(r"\bbv2int\b"), "bv2nat"),
     (re.compile(r"\bubv_to_int\b"), "bv2nat"),
     (re.compile(r"\bint_to_bv\b"), "int2bv"),
